@@ -568,7 +568,7 @@ Section Under.
   Lemma good_spec : forall b, good b ->
     b <> "" /\ b <> "." /\ b <> ".." /\ no_slash b = true /\ no_pct b = true.
   Proof.
-    intros b H. unfold good, bad_bucket in H.
+    intros b H. unfold good, bad_bucket, router_refuses, odd_bucket in H.
     apply orb_false_iff in H. destruct H as [H H5].
     apply orb_false_iff in H. destruct H as [H H4].
     apply orb_false_iff in H. destruct H as [H H3].
@@ -577,6 +577,9 @@ Section Under.
     - apply negb_false_iff. exact H4.
     - apply negb_false_iff. exact H5.
   Qed.
+
+  Lemma good_routed : forall b, good b -> router_refuses b = false.
+  Proof. intros b H. unfold good, bad_bucket in H. apply orb_false_iff in H. exact (proj1 H). Qed.
 
   Lemma split_bucket_dir : forall b, no_slash b = true -> split_slash (bucket_dir b) = ["" ; "buckets"; b].
   Proof.
@@ -932,6 +935,15 @@ Section Under.
   Lemma no_pct_bucket_dir : forall b, no_pct b = true -> no_pct (bucket_dir b) = true.
   Proof. intros b H. unfold bucket_dir, buckets_path. apply no_pct_app; [reflexivity|]. apply no_pct_app; [reflexivity | exact H]. Qed.
 
+  (* an ordinary bucket name is not changed by the extra decoding of the proxied URL *)
+  Lemma obj_http_good : forall m b o, no_pct b = true -> obj_http m b o = http_calls m (bucket_dir b ++ o).
+  Proof.
+    intros m b o H. unfold obj_http, obj_url_path.
+    rewrite <- (append_nil_r (bucket_dir b)) at 1.
+    rewrite (pct_decode_nopct (bucket_dir b) "" (no_pct_bucket_dir b H)). simpl.
+    rewrite append_nil_r. reflexivity.
+  Qed.
+
   (* decoding  <a directory under the bucket>/<tail>  keeps the directory *)
   Lemma decode_under : forall b pre tail r, good b -> no_pct pre = true ->
     pct_decode (pre ++ String slash tail) = Some r ->
@@ -996,7 +1008,9 @@ Section Under.
     intros fx q G Bb OR HR HS.
     destruct (norm_object_form (q_object q)) as [k Ek].
     unfold rels_ok, rels, rel_object in HR. unfold src_bad in HS.
-    unfold calls. rewrite Ek in *.
+    destruct (good_spec _ G) as [_ [_ [_ [_ NPb]]]].
+    unfold calls. rewrite (good_routed _ G). unfold handler_calls. rewrite Ek in *.
+    rewrite ?(obj_http_good _ _ _ NPb).
     destruct (q_route q) eqn:ER; try discriminate OR.
     - (* RPut *)
       assert (Ok : ok (split_slash k)) by (apply ok_slash; apply HR; left; reflexivity).
@@ -1176,7 +1190,7 @@ Section Under.
     intros fx q G OR HR HS.
     destruct (norm_object_form (q_object q)) as [k Ek].
     unfold rels_ok, rels, up_rel, part_rel in HR. unfold src_bad in HS.
-    unfold calls. rewrite Ek in *.
+    unfold calls. rewrite (good_routed _ G). unfold handler_calls. rewrite Ek in *.
     destruct (q_route q) eqn:ER; try discriminate OR.
     - (* RCopyPart *)
       assert (Ou : ok (".uploads" :: split_slash (q_upload q))) by (rewrite <- split_uploads_rel; apply HR; left; reflexivity).
@@ -1339,7 +1353,7 @@ Section Under.
     (route_needs_plain_fx (q_route q) = true -> fx_plain fx = true) ->
     Forall (cok (q_bucket q)) (candidates fx q).
   Proof.
-    intros fx q G HR HP. unfold candidates. unfold rels_ok, rels in HR.
+    intros fx q G HR HP. unfold candidates. rewrite (good_routed _ G). unfold handler_candidates. unfold rels_ok, rels in HR.
     destruct (q_route q) eqn:ER; try solve [constructor].
     - apply purge_candidates_cok; [exact G | exact HR].
     - apply list_candidates_cok; [exact G | apply HP; reflexivity|].
@@ -1380,6 +1394,7 @@ Lemma calls_ctx : forall fx q b c, In (b, c) (calls fx q) ->
   b = q_bucket q \/ (b = src_bucket q /\ (src_bucket q =? "") = false /\ copy_route (q_route q) = true).
 Proof.
   intros fx q b c H. unfold calls in H.
+  destruct (router_refuses (q_bucket q)); [destruct H|]. unfold handler_calls in H.
   destruct (q_route q).
   - destruct (ends_with_slash _); left; exact (within_ctx _ _ _ _ H).
   - destruct (ends_with_slash _); [destruct H | left; exact (within_ctx _ _ _ _ H)].
@@ -1471,7 +1486,7 @@ Theorem contained_partial2 : forall fx q,
 Proof.
   intros fx q GB T HK. unfold all_contained. apply andb_true_iff. split.
   - exact (calls_contained_partial fx q GB T).
-  - pose proof (purge_candidates_cok forbid_none (q_bucket q) (q_keys q) GB HK) as P.
+  - apply orb_true_iff. right. pose proof (purge_candidates_cok forbid_none (q_bucket q) (q_keys q) GB HK) as P.
     apply forallb_forall. intros c Hc. rewrite Forall_forall in P. exact (cok_contained _ c GB (P c Hc)).
 Qed.
 
@@ -1632,17 +1647,128 @@ Theorem uploads_hidden_refuted_dotdot :
   all_contained fx_demo up_get2 = true /\ uploads_hidden fx_demo up_get2 = false.
 Proof. vm_compute. repeat split; reflexivity. Qed.
 
-(* finding 2: a bucket name that is not an ordinary name.  DELETE /. looks up and
-   recursively deletes /buckets itself; GET /../etc/secret is served from /etc/secret *)
+(* ---------- the router's {bucket} pattern ---------- *)
+
+(* the pattern, alternative by alternative, accepts exactly the names router_refuses does not *)
+Lemma bucket_pattern_spec : forall b, bucket_pattern b = negb (router_refuses b).
+Proof.
+  assert (X : forall c, Ascii.eqb c slash = true -> Ascii.eqb c "." = true -> False).
+  { intros c H1 H2. apply ascii_eqb_true in H1. apply ascii_eqb_true in H2. subst c. discriminate H2. }
+  intros [|c r]; [reflexivity|].
+  unfold bucket_pattern, router_refuses, dot. cbn [String.eqb no_slash].
+  destruct (Ascii.eqb c slash) eqn:Cs; destruct (Ascii.eqb c ".") eqn:Cd;
+    try (exfalso; exact (X c Cs Cd)); cbn [negb andb orb].
+  - reflexivity.
+  - destruct r as [|d r']; [reflexivity|]. cbn [String.eqb no_slash].
+    destruct (Ascii.eqb d slash) eqn:Ds; destruct (Ascii.eqb d ".") eqn:Dd;
+      try (exfalso; exact (X d Ds Dd)); cbn [negb andb orb].
+    + reflexivity.
+    + destruct r' as [|e r'']; [reflexivity|]. cbn [String.eqb no_slash negb andb orb].
+      destruct (negb (Ascii.eqb e slash) && no_slash r''); reflexivity.
+    + destruct (no_slash r'); reflexivity.
+  - destruct (no_slash r); reflexivity.
+Qed.
+
+Theorem pattern_refuses_exactly : forall b,
+  bucket_pattern b = false <-> (b = "" \/ b = "." \/ b = ".." \/ no_slash b = false).
+Proof.
+  intros b. rewrite bucket_pattern_spec. unfold router_refuses. rewrite negb_false_iff.
+  rewrite !orb_true_iff, !String.eqb_eq, negb_true_iff. tauto.
+Qed.
+
+(* a refused bucket name reaches no handler *)
+Theorem refused_no_calls : forall fx q, router_refuses (q_bucket q) = true ->
+  calls fx q = [] /\ candidates fx q = [].
+Proof. intros fx q H. unfold calls, candidates. rewrite H. split; reflexivity. Qed.
+
+Lemma routed_calls : forall fx q, router_refuses (q_bucket q) = false -> calls fx q = handler_calls fx q.
+Proof. intros fx q H. unfold calls. rewrite H. reflexivity. Qed.
+
+Lemma bad_of_parts : forall b, router_refuses b = false -> odd_bucket b = false -> bad_bucket b = false.
+Proof. intros b H1 H2. unfold bad_bucket. rewrite H1, H2. reflexivity. Qed.
+
+(* ---------- the partial theorems with the router in front: the only hypothesis on the
+   bucket name is that it has no "%" ---------- *)
+
+Theorem calls_contained_routed : forall fx q,
+  odd_bucket (q_bucket q) = false -> req_climbs q = false ->
+  forallb call_contained (calls fx q) = true.
+Proof.
+  intros fx q O T. destruct (router_refuses (q_bucket q)) eqn:R.
+  - rewrite (proj1 (refused_no_calls fx q R)). reflexivity.
+  - exact (calls_contained_partial fx q (bad_of_parts _ R O) T).
+Qed.
+
+Theorem candidates_contained_routed : forall fx q,
+  odd_bucket (q_bucket q) = false -> req_climbs q = false ->
+  (route_needs_plain_fx (q_route q) = true -> fx_plain fx = true) ->
+  candidates_contained fx q = true.
+Proof.
+  intros fx q O T HP. destruct (router_refuses (q_bucket q)) eqn:R.
+  - unfold candidates_contained. rewrite (proj2 (refused_no_calls fx q R)). reflexivity.
+  - exact (candidates_contained_partial fx q (bad_of_parts _ R O) T HP).
+Qed.
+
+Theorem all_contained_routed : forall fx q,
+  odd_bucket (q_bucket q) = false -> req_climbs q = false ->
+  (forall k, In k (q_keys q) -> climbs k = false) ->
+  all_contained fx q = true.
+Proof.
+  intros fx q O T HK. destruct (router_refuses (q_bucket q)) eqn:R.
+  - unfold all_contained. rewrite (proj1 (refused_no_calls fx q R)), R. reflexivity.
+  - exact (contained_partial2 fx q (bad_of_parts _ R O) T HK).
+Qed.
+
+Theorem uploads_hidden_routed : forall fx q,
+  odd_bucket (q_bucket q) = false -> q_bucket q <> ".uploads" ->
+  req_enters_uploads q = false -> uploads_hidden fx q = true.
+Proof.
+  intros fx q O NU T. destruct (router_refuses (q_bucket q)) eqn:R.
+  - unfold uploads_hidden. rewrite (proj1 (refused_no_calls fx q R)). apply orb_true_r.
+  - exact (uploads_hidden_partial2 fx q (bad_of_parts _ R O) NU T).
+Qed.
+
+(* former part of finding 2, REPAIRED in /repo (fix: the S3 router must not accept '.' or
+   '..' as a bucket name).  DELETE /. looked up and recursively deleted /buckets itself, GET
+   /../etc/secret was served from /etc/secret: that is still what the HANDLERS do with
+   these names, but the router no longer hands them over *)
 Definition bad_delete : req := rqb RDeleteBucket "." "".
 Definition bad_get : req := rqb RGet ".." "etc/secret".
 
-Theorem bad_bucket_refuted :
-  bad_bucket (q_bucket bad_delete) = true /\
-  map snd (calls fx_demo bad_delete) = [GLookup "/buckets" "."; GDelete "/buckets" "." true] /\
+Theorem dot_buckets_repaired :
+  bucket_pattern "." = false /\ bucket_pattern ".." = false /\ bucket_pattern "" = false /\
+  bucket_pattern "..." = true /\ bucket_pattern ".b" = true /\ bucket_pattern "..b" = true /\
+  map snd (handler_calls fx_demo bad_delete) = [GLookup "/buckets" "."; GDelete "/buckets" "." true] /\
   effective (GDelete "/buckets" "." true) = Some "/buckets" /\
-  bad_bucket (q_bucket bad_get) = true /\
-  map (fun c => effective (snd c)) (calls fx_demo bad_get) = [None; Some "/etc/secret"].
+  map (fun c => effective (snd c)) (handler_calls fx_demo bad_get) = [None; Some "/etc/secret"] /\
+  calls fx_demo bad_delete = [] /\ candidates fx_demo bad_delete = [] /\
+  calls fx_demo bad_get = [] /\ candidates fx_demo bad_get = [].
+Proof. vm_compute. repeat split; reflexivity. Qed.
+
+(* finding 2: a bucket name with a "%", which the router accepts.  GET /%2562/obj (bucket
+   name "%62") is served from /buckets/b/obj, DELETE deletes it, the POST upload writes
+   into bucket b; the gRPC routes of the same bucket use the literal name /buckets/%62.
+   A name that decodes to ".." leaves /buckets altogether; a bad escape sends nothing. *)
+Definition odd_get : req := rqb RGet "%62" "obj".
+Definition odd_delete : req := rqb RDelete "%62" "obj".
+Definition odd_post : req := rqb RPostPolicy "%62" "posted".
+Definition odd_head_bucket : req := rqb RHeadBucket "%62" "".
+Definition odd_get_dd : req := rqb RGet "%2e%2e" "etc/secret".
+Definition odd_get_badesc : req := rqb RGet "%zz" "obj".
+
+Theorem odd_bucket_refuted :
+  router_refuses (q_bucket odd_get) = false /\ odd_bucket (q_bucket odd_get) = true /\
+  req_climbs odd_get = false /\ req_enters_uploads odd_get = false /\
+  map snd (calls fx_demo odd_get) = [Http MGet "/buckets/b/obj"] /\
+  forallb call_contained (calls fx_demo odd_get) = false /\
+  map snd (calls fx_demo odd_delete) = [Http MDelete "/buckets/b/obj"] /\
+  forallb call_contained (calls fx_demo odd_delete) = false /\
+  map snd (calls fx_demo odd_post) = [Http MPut "/buckets/b/posted"] /\
+  forallb call_contained (calls fx_demo odd_post) = false /\
+  map snd (calls fx_demo odd_head_bucket) = [GLookup "/buckets" "%62"] /\
+  forallb call_contained (calls fx_demo odd_head_bucket) = true /\
+  map (fun c => effective (snd c)) (calls fx_demo odd_get_dd) = [None; Some "/etc/secret"] /\
+  calls fx_demo odd_get_badesc = [].
 Proof. vm_compute. repeat split; reflexivity. Qed.
 
 (* former finding 3 (repaired in /repo): POST /oth with the form field key = "er/obj" wrote
